@@ -173,6 +173,7 @@ pub fn run(ctx: &Ctx) {
         let sets: usize = table.shards.iter().map(|s| s.lock().unwrap().len()).sum();
         ctx.add("distinct_document_multisets", sets as u64);
     }
+    names_part(ctx);
     // the reference's own laws, exhaustively on the small alphabet: join is commutative and idempotent and agrees with batch inference
     let alphabet = materialise(plain_cfg(2));
     let mut law_checks = 0u64;
@@ -261,5 +262,68 @@ pub fn replay(ctx: &Ctx, case: &Value) {
                 ctx.report_all(judge_state(&order, &el, 0, case, Some(&table)));
             }
         }
+    }
+}
+
+/// adversarial names: a tree split into two documents, supplied in both orders and with the first
+/// document supplied again at the end; every step is judged like a transition of the search
+fn names_part(ctx: &Ctx) {
+    use super::names::*;
+    let pool = pool(&["degenerate"]);
+    let subs = subsets(pool.len(), 2);
+    let params = TreeParams { min_nodes: 2, max_nodes: 3, max_decorated: 1, root_from_subset: false, shard: (0, 1) };
+    let res = crate::par::par_for(
+        subs.len() as u64,
+        ctx.threads,
+        1,
+        Some(ctx.deadline),
+        |_| 0u64,
+        |acc, si| {
+            let subset: Vec<PoolName> = subs[si as usize].iter().map(|&i| pool[i]).collect();
+            for_each_tree(&subset, &params, &mut |root| {
+                if !prefix_clash_free(root) {
+                    return;
+                }
+                for at in 1..root.children().count() {
+                    let (a, b) = match split(root, at) {
+                        Some(x) => x,
+                        None => continue,
+                    };
+                    let (a, b) = (DocEntry::from_root(a), DocEntry::from_root(b));
+                    let table = OrderTable::new();
+                    for order in [vec![&a, &b, &a], vec![&b, &a, &b]] {
+                        let mut el = match run_history(&[order[0]]) {
+                            Ok(e) => e,
+                            Err(_) => continue,
+                        };
+                        let mut before: Vec<&DocEntry> = vec![order[0]];
+                        for d in &order[1..] {
+                            let ev = Event::doc((*d).clone());
+                            let succ = match subject::guarded(|| subject::extend(el.clone(), &ev.bytes)) {
+                                Ok(Ok(e)) => Some(e),
+                                _ => None,
+                            };
+                            let t = Transition { pred: &el, before: before.clone(), event: &ev, succ: succ.as_ref(), rank: (1 << 50) | si };
+                            *acc += 1;
+                            ctx.report_all(judge_transition(&t, Some(&table)));
+                            match succ {
+                                Some(s) => {
+                                    el = s;
+                                    before.push(d);
+                                }
+                                None => break,
+                            }
+                        }
+                    }
+                }
+            });
+        },
+    );
+    let evals: u64 = res.accs.iter().sum();
+    ctx.add("transitions", evals);
+    ctx.add("traces_validated_against_impl", evals);
+    ctx.set("named_trees", json!({"pool": pool.len(), "subsets": subs.len(), "subsets_done": res.processed, "nodes_max": params.max_nodes, "transitions": evals}));
+    if !res.complete {
+        ctx.set("exhaustive", json!(false));
     }
 }
